@@ -411,6 +411,7 @@ func (r *Reconciler) reconcileAbort(ctx context.Context, proposal *configapi.Pro
 			if err := r.updateProposalStatus(ctx, proposal); err != nil {
 				return controller.Result{}, err
 			}
+			return requeueNext(proposal), nil
 		} else if config.Status.Committed.Index == proposal.Status.PrevIndex {
 			config.Status.Committed.Index = proposal.TransactionIndex
 			if err := r.configurations.UpdateStatus(ctx, config); err != nil {
@@ -429,7 +430,7 @@ func (r *Reconciler) reconcileAbort(ctx context.Context, proposal *configapi.Pro
 			if err := r.updateProposalStatus(ctx, proposal); err != nil {
 				return controller.Result{}, err
 			}
-			return controller.Result{}, nil
+			return requeueNext(proposal), nil
 		} else if config.Status.Committed.Index >= proposal.TransactionIndex &&
 			config.Status.Applied.Index >= proposal.TransactionIndex {
 			// Both indexes have already passed this proposal (the configuration was updated but the proposal
@@ -439,9 +440,14 @@ func (r *Reconciler) reconcileAbort(ctx context.Context, proposal *configapi.Pro
 			if err := r.updateProposalStatus(ctx, proposal); err != nil {
 				return controller.Result{}, err
 			}
-			return controller.Result{}, nil
+			return requeueNext(proposal), nil
+		} else if proposal.Status.PrevIndex != 0 {
+			// Neither index can be moved yet: the proposal waits for its predecessor, like a validating or
+			// applying proposal does.
+			return controller.Result{Requeue: controller.NewID(proposalstore.NewID(proposal.TargetID, proposal.Status.PrevIndex))}, nil
 		}
-
+	case configapi.ProposalAbortPhase_ABORTED:
+		return requeueNext(proposal), nil
 	}
 	return controller.Result{}, nil
 }
@@ -491,14 +497,9 @@ func (r *Reconciler) reconcileCommit(ctx context.Context, proposal *configapi.Pr
 		if err := r.updateProposalStatus(ctx, proposal); err != nil {
 			return controller.Result{}, err
 		}
-		return controller.Result{}, nil
+		return requeueNext(proposal), nil
 	case configapi.ProposalCommitPhase_COMMITTED:
-		if proposal.Status.NextIndex != 0 {
-			return controller.Result{
-				Requeue: controller.NewID(proposalstore.NewID(proposal.TargetID, proposal.Status.NextIndex)),
-			}, nil
-		}
-		return controller.Result{}, nil
+		return requeueNext(proposal), nil
 	default:
 		return controller.Result{}, nil
 	}
@@ -548,7 +549,7 @@ func (r *Reconciler) reconcileApply(ctx context.Context, proposal *configapi.Pro
 			if err := r.updateProposalStatus(ctx, proposal); err != nil {
 				return controller.Result{}, err
 			}
-			return controller.Result{}, nil
+			return requeueNext(proposal), nil
 		}
 
 		// If the previous proposal has not yet been applied, wait for it.
@@ -774,14 +775,9 @@ func (r *Reconciler) reconcileApply(ctx context.Context, proposal *configapi.Pro
 		if err := r.updateProposalStatus(ctx, proposal); err != nil {
 			return controller.Result{}, err
 		}
-		return controller.Result{}, nil
+		return requeueNext(proposal), nil
 	case configapi.ProposalApplyPhase_APPLIED:
-		if proposal.Status.NextIndex != 0 {
-			return controller.Result{
-				Requeue: controller.NewID(proposalstore.NewID(proposal.TargetID, proposal.Status.NextIndex)),
-			}, nil
-		}
-		return controller.Result{}, nil
+		return requeueNext(proposal), nil
 	case configapi.ProposalApplyPhase_FAILED:
 		configID := configuration.NewID(proposal.TargetID, proposal.TargetType, proposal.TargetVersion)
 		config, err := r.configurations.Get(ctx, configID)
@@ -809,12 +805,18 @@ func (r *Reconciler) passFailedProposal(ctx context.Context, proposal *configapi
 			return controller.Result{}, err
 		}
 	}
+	return requeueNext(proposal), nil
+}
+
+// requeueNext asks for the successor of a proposal to be reconciled: a proposal that waits behind this one
+// (validation, commit, abort and apply all wait for the predecessor) is only looked at again when it is re-queued.
+func requeueNext(proposal *configapi.Proposal) controller.Result {
 	if proposal.Status.NextIndex != 0 {
 		return controller.Result{
 			Requeue: controller.NewID(proposalstore.NewID(proposal.TargetID, proposal.Status.NextIndex)),
-		}, nil
+		}
 	}
-	return controller.Result{}, nil
+	return controller.Result{}
 }
 
 func (r *Reconciler) updateProposalStatus(ctx context.Context, proposal *configapi.Proposal) error {
